@@ -17,7 +17,7 @@ for log in sys.argv[1:]:
         if "checks" not in d:
             continue
         pid, var = tag[:3], tag[3:]
-        src = ("/tmp/mut_%s_out" if var in "AB" else "/tmp/mut2_%s_out") % pid
+        src = {"A": "/tmp/mut_%s_out", "B": "/tmp/mut_%s_out", "C": "/tmp/mut2_%s_out", "D": "/tmp/mut2_%s_out"}.get(var, "/tmp/mut3_%s_out") % pid
         confirmed = d.get("baseline_ok") and d.get("demo_with_change_rc") == 1 and d.get("demo_without_change_rc") == 0
         if not confirmed:
             print(tag, "NOT confirmed:", d.get("baseline"), d.get("demo_with_change_rc"), d.get("demo_without_change_rc"))
@@ -45,7 +45,7 @@ for log in sys.argv[1:]:
             "author_ran": meta.get("ran"),
             "confirmed_here": {"baseline_467_still_pass": True, "demo_exit_with_change": 1, "demo_exit_without_change": 0,
                                "how": "tools/mutant.py: patch applied in a scratch worktree outside /repo and /verif, tools/baseline_off.py, demo, checks with BBVERIF_REPO=<worktree>, patch reverted, demo again",
-                               "note": "the demonstration asserts that blackbird is imported from the scratch worktree %s" % (("/tmp/mut_%s" if var in "AB" else "/tmp/mut2_%s") % pid),
+                               "note": "the demonstration asserts that blackbird is imported from the scratch worktree %s" % (src[:-4]),
                                "base_commit": d.get("base")},
             "detected_by": res,
         }
